@@ -21,8 +21,11 @@ TRUSTED = [
     'modelled, not verified: genshi/template/eval.py TemplateASTTransformer / ExpressionASTTransformer (Lean Genshi.Py.xform, tied by tree correspondence), LookupBase rules (Lean lookup functions), interpolation.lex (Lean model, tied by correspondence)',
     'CPython is the definition of Python semantics: the theorem is relative to an uninterpreted operator semantics; the reference interpreter of the oracle is cross-checked against eval() on every case that uses no documented extension',
     'compile() of the regenerated source and the byte-code interpreter are exercised, not modelled',
+    'modelled, not verified: the concrete value semantics C.sem / C.bindArgs of Model/PyEvalC.lean (operators, containers, call machinery on None/bool/int/str/tuple/list/dict/object/range/generator/closure values), tied to CPython and to genshi on every generated case by the streams ceval-*; outside its domain the model answers unmodelled (counted)',
 ]
 ASSUMPTIONS = [
+    'the Lean evaluators capture variables by value: a closure / generator expression created in a comprehension and used after its loop variable was rebound (Python closes over the variable) is not generated for the ceval streams',
+    'ceval streams: a case on which CPython gives different outcomes for a list comprehension and for list(<the same generator expression>) is not judged (counted ceval:cpython-inlining-uncertain; CPython 3.12.1 comprehension inlining)',
     'context data keys are ordinary identifiers that do not shadow NotImplemented / Ellipsis (those two names always mean the builtins)',
     'values are compared up to a canonical form: scalars by repr, containers recursively, generators by their items, functions and other objects by type',
     'a case on which the reference (CPython compiling its own tree with the lookups plugged in) and plain eval() disagree although no extension was used is not judged (counted as oracle-uncertain): CPython 3.12.1 raises a spurious UnboundLocalError for a free name that is also the loop variable of a comprehension nested in the iterable of another comprehension inside a lambda',
@@ -1130,7 +1133,9 @@ class _Rec(object):
         self.vals = []
 
     def __call__(self, v):
-        self.vals.append(v)
+        # canonical form at once: a generator object is consumed while the names bound by py:with / py:for still are
+        # in the context (afterwards its free names would resolve in the outer frames)
+        self.vals.append(canon(v))
         return ''
 
 
@@ -1145,14 +1150,17 @@ def tmpl_observe(case):
     except Exception:  # noqa
         return None
 
-    def run():
+    try:
         t.generate(**data).render('xml')
-        if case['form'] == 'D':
-            return list(rec.vals)
-        if len(rec.vals) != 1:
-            raise AssertionError('recorded %d values' % len(rec.vals))
-        return rec.vals[0]
-    return CG.norm_outcome(outcome(run))
+    except (RecursionError, Unsupported, TooBig):
+        raise
+    except Exception as e:  # noqa
+        return CG.norm_outcome(['err', type(e).__name__])
+    if case['form'] == 'D':
+        return CG.norm_outcome(['ok', ['list', list(rec.vals)]])
+    if len(rec.vals) != 1:
+        return ['err', 'recorded %d values' % len(rec.vals)]
+    return CG.norm_outcome(['ok', rec.vals[0]])
 
 
 def tmpl_expr_case(case):
@@ -1265,6 +1273,12 @@ def shard(arg):
     ccases = CG.gen_ceval_cases(rng, max(150, n // 2))
     if idx == 0:
         ccases = [{'kind': 'ceval', 'src': s_, 'lookup': lk, 'data': d_, 'feat': ['hand']} for s_, d_ in CG.HAND_CEVAL for lk in ('strict', 'lenient')] + ccases
+    # the called-lambda shapes of the oracle also through the model (context names outside the model's domain dropped)
+    for c in lambda_call_cases(rng, max(40, n // 10)):
+        names = set(re.findall(r'[A-Za-z_][A-Za-z0-9_]*', c['src']))
+        data = dict((k, v) for k, v in c['data'].items() if k in names)
+        if all(CG.in_domain(v) for v in data.values()):
+            ccases.append({'kind': 'ceval', 'src': c['src'], 'lookup': c['lookup'], 'data': data, 'feat': [c['shape']]})
     compare_ceval(ccases, res)
     tcases = CG.gen_template_cases(rng, max(60, n // 6))
     if idx == 0:
